@@ -193,9 +193,11 @@ def jobs_for(tier, seed):
         def path_parts(M):
             h = S.sym_byte(M, 'h0')
             M.assume(z3.And(z3.ULT(h.v, 0x80), h.v != ord('"'), h.v != ord('\\'), h.v != ord('$')))
-            hi = U(8, hexdigit_term(z3.LShR(h.v, 4))); lo = U(8, hexdigit_term(h.v & 15))
-            a = models.elems(b'x := "a') + [h] + models.elems(b'b"\n')
-            b = models.elems(b'x := "a\\x') + [hi, lo] + models.elems(b'b"\n')
+            up = z3.Bool('upper'); M.symvars['upper'] = up      # upper- or lower-case hex digits
+            def digit(n4): return z3.If(z3.ULT(n4, 10), n4 + 0x30, z3.If(up, n4 + 0x41 - 10, n4 + 0x61 - 10))
+            hi = U(8, digit(z3.LShR(h.v, 4))); lo = U(8, digit(h.v & 15))
+            a = models.elems(b'print("a') + [h] + models.elems(b'b")\n')
+            b = models.elems(b'print("a\\x') + [hi, lo] + models.elems(b'b")\n')
             return a, b
         job = pair_job('hex-escape', [], [])
         inner = job['path_fn']
